@@ -20,6 +20,8 @@ package goose
 //@   ensures len(result) >= 1 && fresh(result)
 //@ assume func strings.LastIndex (s, substr)
 //@   ensures -1 <= result && result < len(s)
+//@ assume func strings.ContainsRune (s, r)
+//@   ensures r == 34 ==> result == contains(s, "\"")
 //@ assume func strconv.Unquote (s)
 //@   ensures result.1 == nil
 
@@ -181,7 +183,8 @@ package goose
 //@ func (Ctx).basicLiteral
 //@   may_reject
 //@   ensures [only string and integer literals] e.Kind == token.STRING || e.Kind == token.INT
-//@   ensures [string literals contain no double quote] e.Kind == token.STRING ==> !pure(bool, "strings.ContainsRune", pure(string, "go/constant.StringVal", ctx.info.Types[ast.Expr(e)].Value), int32(34))
+//@   also C05
+//@   ensures [string literals contain no double quote] e.Kind == token.STRING ==> !contains(pure(string, "go/constant.StringVal", ctx.info.Types[ast.Expr(e)].Value), "\"")
 //@ func (Ctx).exprSpecial
 //@   may_reject
 //@   ensures [type assertions are not silently dropped] !typeis(e, *ast.TypeAssertExpr)
